@@ -25,13 +25,13 @@ static void pipe_case(const std::string& modes, int tokens, int nitems) {
 int main(int argc, char** argv) {
     if (argc < 5) return 2;
     TR.open(argv[1]); int nseeds = atoi(argv[2]); unsigned long seed0 = strtoul(argv[3], nullptr, 10); int maxlen = atoi(argv[4]);
-    long paths = 0, steps = 0, stuck = 0; vh::Timer tm; static const int dens[4] = {1, 3, 10, 40};
+    long paths = 0, steps = 0, stuck = 0; vh::Timer tm; static const int dens[8] = {1, 3, 10, 40, -1, -2, -3, -5};
     std::vector<std::string> strings; const char al[3] = {'P', 'O', 'I'};
     for (int len = 1; len <= std::min(maxlen, 3); len++) { int tot = 1; for (int i = 0; i < len; i++) tot *= 3; for (int c = 0; c < tot; c++) { std::string s; int x = c; for (int i = 0; i < len; i++) { s += al[x % 3]; x /= 3; } strings.push_back(s); } }
     if (maxlen >= 4) for (auto s : {"OPII", "PPIO", "IPOI", "IIII", "POIP", "OIPI"}) strings.push_back(s);
     for (int s = 0; s < nseeds; s++) for (auto& m : strings) for (int tok = 1; tok <= 3; tok++) {
         if (stuck >= 10) break; int n = (int)((seed0 + s + tok + m.size()) % 6); g_delay_seed = (unsigned)(seed0 * 31 + s * 7 + tok);
-        TR.begin_exec(); Result r = run_in_arena(3, seed0 + s * 401 + tok * 17 + paths, dens[(s + tok) % 4], 20000000, [&] { pipe_case(m, tok, n); }, false); ++paths; steps += r.steps; if (r.rc) ++stuck;
+        TR.begin_exec(); Result r = run_in_arena(3, seed0 + s * 401 + tok * 17 + paths, dens[(s + tok) % 8], 20000000, [&] { pipe_case(m, tok, n); }, false); ++paths; steps += r.steps; if (r.rc) ++stuck;
     }
     TR.close();
     printf("{\"paths\":%ld,\"steps\":%ld,\"stuck\":%ld,\"wall\":%.2f}\n", paths, steps, stuck, tm.s());
